@@ -79,6 +79,7 @@ struct adapter {
         s.reset( new set_type( (size_t) cap, (unsigned) ps, (unsigned) th ));
     }
     long size() { return (long) s->size(); }
+    long bucket_count() { return (long) s->bucket_count(); }
 
     result op( int t, long code, long k, long a, long b )
     {
